@@ -1,5 +1,6 @@
 import Fundraising.Generated.Code.Msgs
 import Fundraising.Proofs.Tie.Pure
+import Fundraising.Proofs.Tie.PureSched
 /-
   Tie of the translated `ValidateBasic` methods (types/msgs.go) to the model's `validateBasic`
   (see Proofs/Tie/Pure.lean for what a tie theorem is).
